@@ -69,6 +69,9 @@ bool vf_is_open(int fd);
 void vf_fire_timers(void);                    /* every armed timer expires once */
 int vf_match(const void *reg, const char *topic);   /* provided by the harness: the regex relation, 0 = match */
 void vf_run_tasks(void);
+void vf_key_create_hook(void);                 /* provided by the harness (l2.h: empty by default) */
+extern int vf_nkeys;
+bool vf_once_in_progress(void);
 
 int vf_pipe(int p[2]);
 int vf_fcntl(int fd, int cmd, ...);
